@@ -1188,7 +1188,7 @@ func (m *Module) genParams(w *engine.World, r *engine.Rand) *engine.TxPlan {
 }
 
 func (m *Module) Gen(w *engine.World, r *engine.Rand) *engine.TxPlan {
-	if m.cfg.Burst > 0 && !m.burstDone && w.Height >= 4 {
+	if m.cfg.Burst > 0 && !m.burstDone && w.Height >= w.Base()+4 {
 		return m.genBurst(w, r)
 	}
 	if r.Bool(m.cfg.PParam) {
